@@ -14,7 +14,8 @@ CONSTANTS Ids,        \* chunk ids
           Persistent, \* BOOLEAN: persistence + wipe-on-expiry enabled
           StartupScrub, \* BOOLEAN: the constructor wipes chunk files left by an earlier instance
           EraseOnLookup, \* BOOLEAN deviation: a lookup erases an expired record (file left behind)
-          ListRaw       \* BOOLEAN deviation: the listing shows every record of the map, expired or not
+          ListRaw,      \* BOOLEAN deviation: the listing shows every record of the map, expired or not
+          CleanFailedWrite \* BOOLEAN: a store whose write fails part-way (disk full, quota) wipes the partial file before giving up
 
 VARIABLES now,    \* clock
           rec,    \* CONTRACT ghost: rec[c] = last completed or begun put  [live, b, dl]
@@ -47,7 +48,7 @@ PutBegin(c, b, ttl) ==
     /\ pc = Idle
     /\ rec' = [rec EXCEPT ![c] = [live |-> TRUE, b |-> b, dl |-> now + ttl]]   \* the chunk's deadline is fixed when the store begins
     /\ IF Persistent
-         THEN /\ pc' = [op |-> "put", c |-> c, b |-> b, dl |-> now + ttl,
+         THEN /\ pc' = [op |-> "put", c |-> c, b |-> b, dl |-> now + ttl, failed |-> FALSE,
                         step |-> IF disk[c] # Absent THEN "zero" ELSE "open"]
               /\ obs' = <<"busy">> /\ UNCHANGED mem
          ELSE /\ mem' = [mem EXCEPT ![c] = [has |-> TRUE, b |-> b, dl |-> now + ttl, persisted |-> FALSE]]
@@ -60,13 +61,26 @@ PutStep ==
        CASE pc.step = "zero"  -> /\ disk' = [disk EXCEPT ![c] = <<"zero">>]
                                  /\ pc' = [pc EXCEPT !.step = "unlink"] /\ UNCHANGED <<mem, obs>>
          [] pc.step = "unlink" -> /\ disk' = [disk EXCEPT ![c] = Absent]
-                                 /\ pc' = [pc EXCEPT !.step = "open"] /\ UNCHANGED <<mem, obs>>
+                                 /\ IF pc.failed   \* the partial file of a failed write is gone: keep the chunk in memory only
+                                      THEN /\ mem' = [mem EXCEPT ![c] = [has |-> TRUE, b |-> pc.b, dl |-> pc.dl, persisted |-> FALSE]]
+                                           /\ pc' = Idle /\ obs' = <<"put", c>>
+                                      ELSE /\ pc' = [pc EXCEPT !.step = "open"] /\ UNCHANGED <<mem, obs>>
          [] pc.step = "open"  -> /\ disk' = [disk EXCEPT ![c] = <<"partial">>]
                                  /\ pc' = [pc EXCEPT !.step = "write"] /\ UNCHANGED <<mem, obs>>
          [] pc.step = "write" -> /\ disk' = [disk EXCEPT ![c] = <<"data", pc.b>>]
                                  /\ mem' = [mem EXCEPT ![c] = [has |-> TRUE, b |-> pc.b, dl |-> pc.dl, persisted |-> TRUE]]
                                  /\ pc' = Idle /\ obs' = <<"put", c>>
     /\ UNCHANGED <<now, rec, lastSweep>>
+
+\* the write of a put fails part-way (ENOSPC, quota, I/O error): persist_chunk_to_disk wipes what it wrote and reports failure;
+\* put keeps the record in memory with persisted = FALSE, so no later sweep would touch a file left behind here.
+WriteFail ==
+    /\ pc # Idle /\ pc.op = "put" /\ pc.step = "write"
+    /\ IF CleanFailedWrite
+         THEN /\ pc' = [pc EXCEPT !.step = "zero", !.failed = TRUE] /\ UNCHANGED <<mem, obs>>
+         ELSE /\ mem' = [mem EXCEPT ![pc.c] = [has |-> TRUE, b |-> pc.b, dl |-> pc.dl, persisted |-> FALSE]]
+              /\ pc' = Idle /\ obs' = <<"put", pc.c>>
+    /\ UNCHANGED <<now, rec, disk, lastSweep>>
 
 \* get / get_record: serves iff the map holds an unexpired record.  The code used to erase an
 \* expired record here (without wiping its file); it now leaves removal to the sweep.
@@ -159,7 +173,7 @@ vars == <<now, rec, mem, disk, pc, lastSweep, obs, hist>>
 
 Acts == {[op |-> "put", c |-> c, b |-> b, ttl |-> t] : c \in Ids, b \in Payloads, t \in Ttls}
    \cup {[op |-> "get", c |-> c] : c \in Ids}
-   \cup {[op |-> "list"], [op |-> "sweep"], [op |-> "adv", d |-> 1], [op |-> "crash"]}
+   \cup {[op |-> "list"], [op |-> "sweep"], [op |-> "adv", d |-> 1], [op |-> "crash"], [op |-> "wfail"]}
 
 Do(a) == CASE a.op = "put"   -> PutBegin(a.c, a.b, a.ttl)
            [] a.op = "get"   -> Get(a.c)
@@ -167,11 +181,12 @@ Do(a) == CASE a.op = "put"   -> PutBegin(a.c, a.b, a.ttl)
            [] a.op = "sweep" -> SweepBegin
            [] a.op = "adv"   -> Advance(a.d)
            [] a.op = "crash" -> CrashRestart
+           [] a.op = "wfail" -> WriteFail
 
 MCInit == Init /\ hist = <<>>
 \* inputs are taken only when idle; internal steps finish the running operation; a crash
 \* may interrupt it (that is how interrupted stores / wipes enter the state space)
-MCNext == \/ \E a \in Acts : /\ (pc = Idle \/ a.op = "crash") /\ Do(a)
+MCNext == \/ \E a \in Acts : /\ (pc = Idle \/ a.op \in {"crash", "wfail"}) /\ Do(a)
                              /\ hist' = Append(hist, IF a.op = "crash" THEN [op |-> "crash", mid |-> (pc # Idle)] ELSE a)
           \/ (PutStep \/ SweepStep) /\ hist' = Append(hist, [op |-> "step"])
 MCSpec == MCInit /\ [][MCNext]_vars
@@ -181,5 +196,6 @@ Bound == now <= MaxNow /\ Len(hist) <= 14
 \* vacuity guards (checked as invariants expected to be VIOLATED, see MC_ChunkStore_reach.cfg)
 Reach_ReadAtDeadline == ~(\E c \in Ids : obs = <<"miss", c>> /\ rec[c].live /\ now = rec[c].dl /\ mem[c].has)
 Reach_CrashMidWipe   == ~(obs[1] = "restart" /\ \E c \in Ids : disk[c] = <<"zero">>)
+Reach_FailedWrite == ~(pc = Idle /\ \E c \in Ids : mem[c].has /\ ~mem[c].persisted /\ Persistent /\ now >= mem[c].dl)
 Reach_OverwriteShorter == ~(\E c \in Ids : obs = <<"put", c>> /\ rec[c].live /\ \E h \in 1..Len(hist) : hist[h].op = "put" /\ hist[h].c = c /\ hist[h].ttl > rec[c].dl - now)
 =============================================================================
